@@ -67,8 +67,8 @@ def caches_ok(r):
             and (r._is_compliant is None or r._is_compliant == compliant_spec(r)))
 
 
-_CACHES = ["ProjectReport._used_licenses", "ProjectReport._unused_licenses", "ProjectReport._files_without_licenses",
-           "ProjectReport._files_without_copyright", "ProjectReport._is_compliant"]
+_CACHES = ["ProjectReport._used_licenses@self", "ProjectReport._unused_licenses@self", "ProjectReport._files_without_licenses@self",
+           "ProjectReport._files_without_copyright@self", "ProjectReport._is_compliant@self"]
 
 
 @spec
@@ -84,7 +84,7 @@ def frame_report(self):
 class UsedLicenses:
     idempotent = True  # cached getter: a second call returns the cache, which equals the first result
     types = {"self": "ProjectReport", "return": "set[str]"}
-    modifies = ["ProjectReport._used_licenses"]
+    modifies = ["ProjectReport._used_licenses@self"]
 
     def pre(self):
         return caches_ok(self)
@@ -97,7 +97,7 @@ class UsedLicenses:
 class UnusedLicenses:
     idempotent = True  # cached getter: a second call returns the cache, which equals the first result
     types = {"self": "ProjectReport", "return": "set[str]"}
-    modifies = ["ProjectReport._unused_licenses", "ProjectReport._used_licenses"]
+    modifies = ["ProjectReport._unused_licenses@self", "ProjectReport._used_licenses@self"]
 
     def pre(self):
         return caches_ok(self)
@@ -110,7 +110,7 @@ class UnusedLicenses:
 class FilesWithoutLicenses:
     idempotent = True  # cached getter: a second call returns the cache, which equals the first result
     types = {"self": "ProjectReport", "return": "set[Path]"}
-    modifies = ["ProjectReport._files_without_licenses"]
+    modifies = ["ProjectReport._files_without_licenses@self"]
 
     def pre(self):
         return caches_ok(self)
@@ -123,7 +123,7 @@ class FilesWithoutLicenses:
 class FilesWithoutCopyright:
     idempotent = True  # cached getter: a second call returns the cache, which equals the first result
     types = {"self": "ProjectReport", "return": "set[Path]"}
-    modifies = ["ProjectReport._files_without_copyright"]
+    modifies = ["ProjectReport._files_without_copyright@self"]
 
     def pre(self):
         return caches_ok(self)
@@ -269,21 +269,30 @@ def copied(rep, project):
             and rep._files_without_copyright is None and rep._is_compliant is None)
 
 
+@spec
+def gen_core(project, R, result):
+    """What ProjectReport.generate computes, written from the statement (design 4.1): whole-view postcondition."""
+    n = len(R)
+    keys = set(project.licenses)
+    return (errs_part(result, R, n) and reports_part(result, R, n) and missing_part(result, R, n)
+            and forall(lambda l, p: (l in result.bad_licenses and p in result.bad_licenses[l])
+                       == (bad_from_files(R, n, l, p) or bad_from_licenses(project, keys, l, p)), "str", "Path")
+            and no_empty_values(result.bad_licenses)
+            and result.deprecated_licenses == deprecated_spec(project, keys)
+            and result.licenses == project.licenses
+            and result.licenses_without_extension == project.licenses_without_extension)
+
+
 @contract("reuse.report.ProjectReport.generate", serves=["C01", "C06", "C13"])
 class Generate:
+    fresh_result = True
     types = {"project": "Project", "do_checksum": "bool", "multiprocessing": "bool", "add_license_concluded": "bool",
              "return": "ProjectReport"}
     raises = {KeyboardInterrupt: None}
 
     def post(project, do_checksum, add_license_concluded, result):
-        R = results_of(project, do_checksum, add_license_concluded)
-        n = len(R)
-        keys = set(project.licenses)
-        return (errs_part(result, R, n) and reports_part(result, R, n) and missing_part(result, R, n)
-                and forall(lambda l, p: (l in result.bad_licenses and p in result.bad_licenses[l])
-                           == (bad_from_files(R, n, l, p) or bad_from_licenses(project, keys, l, p)), "str", "Path")
-                and no_empty_values(result.bad_licenses)
-                and result.deprecated_licenses == deprecated_spec(project, keys)
+        return (gen_core(project, results_of(project, do_checksum, add_license_concluded), result)
+                and wf_results(results_of(project, do_checksum, add_license_concluded))
                 and copied(result, project))
 
     loops = {
@@ -394,6 +403,7 @@ def lines_nonempty(infos):
 
 @contract("reuse.report.FileReport.generate", serves=["C01", "C06", "C13", "C18"])
 class FileReportGenerate:
+    fresh_result = True
     types = {"project": "Project", "path": "Path", "do_checksum": "bool", "add_license_concluded": "bool", "return": "FileReport"}
     raises_iff = {OSError: lambda path: not path.is_file()}
     # k0 is an arbitrary identifier: proving the pointwise statements for it proves them for every identifier;
@@ -430,3 +440,148 @@ class FileReportGenerate:
             and classified(report, project, k0)),
             types={"identifiers": "set[str]", "plus_identifier": "str"}),
     }
+
+
+# ---- C01: the verdict, written from the statement's clauses (a)-(d) over the per-file results --------------------
+@spec
+def used_in_files(R, x):
+    return exists(lambda j: okj(R, j) and x in R[j].report.licenses_in_file, "int")
+
+
+@spec
+def clause_a(R):
+    # every covered file has at least one copyright notice and at least one licence expression
+    return forall(lambda j: implies(okj(R, j), R[j].report.copyright != "" and len(R[j].report.licenses_in_file) > 0), "int")
+
+
+@spec
+def clause_b(R):
+    # every identifier used is known (not bad) and has a text in LICENSES/ (not missing) -- per file, see FileReport.generate
+    return forall(lambda j: implies(okj(R, j), not R[j].report.missing_licenses and not R[j].report.bad_licenses), "int")
+
+
+@spec
+def clause_c(project, R):
+    # every LICENSES/ file: valid, non-deprecated, with extension, used by some covered file (as ID or ID+)
+    return (forall(lambda l: implies(l in project.licenses,
+                                     l in project.license_map and not project.license_map[l]["isDeprecatedLicenseId"]
+                                     and (used_in_files(R, l) or used_in_files(R, add_plus(l)))), "str")
+            and not project.licenses_without_extension)
+
+
+@spec
+def clause_d(R):
+    # every covered file could be read
+    return not exists(lambda j: errj(R, j), "int")
+
+
+@spec
+def verdict_spec(project, R):
+    return clause_a(R) and clause_b(R) and clause_c(project, R) and clause_d(R)
+
+
+@spec
+def reveal_all(R):
+    n = len(R)
+    return (forall(lambda l, p: reveal(missing_from_files(R, n, l, p)), "str", "Path")
+            and forall(lambda l, p: reveal(bad_from_files(R, n, l, p)), "str", "Path"))
+
+
+@lemma(types={"project": "Project", "R": "list[_MultiprocessingResult]", "report": "ProjectReport"}, serves=["C01"], name="verdict-read-errors")
+def verdict_errors(project, R, report):
+    return implies(gen_core(project, R, report) and wf_results(R), (not report.read_errors) == clause_d(R))
+
+
+@lemma(types={"project": "Project", "R": "list[_MultiprocessingResult]", "report": "ProjectReport"}, serves=["C01"], name="verdict-deprecated")
+def verdict_deprecated(project, R, report):
+    return implies(gen_core(project, R, report),
+                   (not report.deprecated_licenses)
+                   == forall(lambda l: implies(l in project.licenses and l in project.license_map,
+                                               not project.license_map[l]["isDeprecatedLicenseId"]), "str"))
+
+
+@lemma(types={"project": "Project", "R": "list[_MultiprocessingResult]", "report": "ProjectReport"}, serves=["C01"], name="verdict-no-info")
+def verdict_noinfo(project, R, report):
+    return implies(gen_core(project, R, report) and wf_results(R),
+                   (not no_copyright_spec(report) and not no_licence_spec(report)) == clause_a(R))
+
+
+_T3 = {"project": "Project", "R": "list[_MultiprocessingResult]", "report": "ProjectReport"}
+_T5 = {"project": "Project", "R": "list[_MultiprocessingResult]", "report": "ProjectReport", "l": "str", "p": "Path"}
+_T4J = {"project": "Project", "R": "list[_MultiprocessingResult]", "report": "ProjectReport", "j": "int", "k": "str"}
+
+
+# ---- missing ----
+@lemma(types=_T5, serves=["C01"], name="missing-pointwise-rl")
+def missing_pw_rl(project, R, report, l, p):
+    return implies(gen_core(project, R, report) and reveal(missing_from_files(R, len(R), l, p))
+                   and forall(lambda j: implies(okj(R, j), not R[j].report.missing_licenses), "int"),
+                   not (l in report.missing_licenses and p in report.missing_licenses[l]))
+
+
+@lemma(types=_T4J, serves=["C01"], name="missing-pointwise-lr")
+def missing_pw_lr(project, R, report, j, k):
+    return implies(gen_core(project, R, report) and reveal(missing_from_files(R, len(R), k, R[j].report.path))
+                   and okj(R, j) and k in R[j].report.missing_licenses,
+                   k in report.missing_licenses)
+
+
+@lemma(types=_T3, serves=["C01"], name="verdict-missing")
+def verdict_missing(project, R, report):
+    return implies(gen_core(project, R, report) and use(missing_pw_rl, project, R, report) and use(missing_pw_lr, project, R, report),
+                   (not report.missing_licenses) == forall(lambda j: implies(okj(R, j), not R[j].report.missing_licenses), "int"))
+
+
+# ---- bad ----
+@lemma(types=_T5, serves=["C01"], name="bad-pointwise-rl")
+def bad_pw_rl(project, R, report, l, p):
+    return implies(gen_core(project, R, report) and reveal(bad_from_files(R, len(R), l, p))
+                   and forall(lambda j: implies(okj(R, j), not R[j].report.bad_licenses), "int")
+                   and forall(lambda x: implies(x in project.licenses, x in project.license_map), "str"),
+                   not (l in report.bad_licenses and p in report.bad_licenses[l]))
+
+
+@lemma(types=_T4J, serves=["C01"], name="bad-pointwise-lr-files")
+def bad_pw_lr(project, R, report, j, k):
+    return implies(gen_core(project, R, report) and reveal(bad_from_files(R, len(R), k, R[j].report.path))
+                   and okj(R, j) and k in R[j].report.bad_licenses,
+                   k in report.bad_licenses)
+
+
+@lemma(types={"project": "Project", "R": "list[_MultiprocessingResult]", "report": "ProjectReport", "l": "str"}, serves=["C01"],
+       name="bad-pointwise-lr-licenses")
+def bad_pw_lr2(project, R, report, l):
+    return implies(gen_core(project, R, report) and l in project.licenses and l not in project.license_map,
+                   l in report.bad_licenses and project.licenses[l] in report.bad_licenses[l])
+
+
+@lemma(types=_T3, serves=["C01"], name="verdict-bad")
+def verdict_bad(project, R, report):
+    return implies(gen_core(project, R, report) and use(bad_pw_rl, project, R, report) and use(bad_pw_lr, project, R, report)
+                   and use(bad_pw_lr2, project, R, report),
+                   (not report.bad_licenses) == (forall(lambda j: implies(okj(R, j), not R[j].report.bad_licenses), "int")
+                                                 and forall(lambda l: implies(l in project.licenses, l in project.license_map), "str")))
+
+
+# ---- unused ----
+@lemma(types={"project": "Project", "R": "list[_MultiprocessingResult]", "report": "ProjectReport", "x": "str"}, serves=["C01", "C06"],
+       name="used-pointwise")
+def used_pw(project, R, report, x):
+    return implies(gen_core(project, R, report) and wf_results(R), (x in used_spec(report)) == used_in_files(R, x))
+
+
+@lemma(types=_T3, serves=["C01", "C06"], name="verdict-unused")
+def verdict_unused(project, R, report):
+    return implies(gen_core(project, R, report) and wf_results(R) and use(used_pw, project, R, report),
+                   (not unused_spec(report))
+                   == forall(lambda l: implies(l in project.licenses, used_in_files(R, l) or used_in_files(R, add_plus(l))), "str"))
+
+
+@lemma(types=_T3, serves=["C01"], name="verdict")
+def verdict(project, R, report):
+    """C01: compliant exactly when clauses (a)-(d) hold -- composition of the category lemmas."""
+    return implies(gen_core(project, R, report) and wf_results(R)
+                   and use(verdict_missing, project, R, report) and use(verdict_bad, project, R, report)
+                   and use(verdict_errors, project, R, report) and use(verdict_deprecated, project, R, report)
+                   and use(verdict_noinfo, project, R, report) and use(verdict_unused, project, R, report),
+                   compliant_spec(report) == verdict_spec(project, R))
